@@ -310,6 +310,14 @@ fam('pred_spelling', [
     P("select t.a, m.p from int.tab1 t join pred m", cB),
     P("select * from mindsdb.pred where 1 = 0", cA),
     P("select * from mindsdb.pred.3 where 1 = 0", cA),
+    # columns qualified by the model's name or alias (the planner strips the qualifier that matches the model reference)
+    P("select * from mindsdb.pred as p1 where p1.x = 1 and p1.y = 2", cA),
+    P("select p1.x, p1.p from mindsdb.pred as p1 where p1.x = 1", cA),
+    P("select * from mindsdb.other as o where o.z = 3 and o.w = 'q'", cA),
+    P("select * from mindsdb.pred where pred.x = 1 and pred.y = 2", cA),
+    P("select * from mindsdb.other where other.z = 3", cA),
+    P("select * from pred as pp where pp.x = 1", cC),
+    P("select * from mindsdb.pred.3 as v3 where v3.x = 1", cA),
 ])
 fam('join_tables', [
     P("select * from int.tab1 t1 join int2.tab2 t2 on t1.a = t2.a", cA),
@@ -467,6 +475,14 @@ for rd in ('mysql', 'postgresql', 'sqlite', 'mssql', 'oracle', 'postgres', 'Snow
         render_ops.append({'k': 'render', 'd': 'mindsdb', 'sql': s_, 'rd': rd, 'fb': True, 'wp': True})
         render_ops.append({'k': 'render', 'd': 'mindsdb', 'sql': s_, 'rd': rd, 'fb': False})
 fam('render_kinds', [o for o in render_ops if o['sql'] in RENDER_EXTRA and o['rd'] in ('mysql', 'postgresql')])
+# LIMIT / OFFSET with and without ORDER BY, star and explicit select lists (dialects emulate these very differently)
+OFFS = ["select * from t order by a limit 5 offset 3", "select a, b from t order by a limit 5 offset 3", "select t.* from t order by a offset 3", "select a from t order by a limit 5",
+        "select * from t limit 5 offset 3", "select a, b from t where c = 1 order by b desc limit 2 offset 1", "select * from t order by a limit 5", "select a from t offset 2"]
+off_ops = [{'k': 'render', 'd': 'mindsdb', 'sql': q_, 'rd': rd, 'fb': fb} for rd in ('mysql', 'postgresql', 'sqlite', 'mssql', 'oracle') for q_ in OFFS
+           for fb in (True, False) if outcome('mindsdb', q_).startswith('ok')]
+render_ops.extend(off_ops)
+for rd in ('mysql', 'postgresql', 'sqlite', 'mssql', 'oracle'):
+    fam('render_offsets_' + rd, [o for o in off_ops if o['rd'] == rd])
 # every type name the renderer knows, in CAST and in CREATE TABLE, for every dialect name
 import sqlalchemy as _sa
 _tnames = sorted({k.upper() for k, v in _sa.types.__dict__.items() if hasattr(v, '__module__')
@@ -745,6 +761,7 @@ probes = [
     {'k': 'render', 'd': 'mindsdb', 'sql': "insert into t (a, b) values (1, 'x'), (2, 'y')", 'rd': 'mssql', 'fb': True},
     {'k': 'render', 'd': 'mindsdb', 'sql': "insert into t (a, b) values (1, 'x'), (2, 'y')", 'rd': 'oracle', 'fb': True},
     {'k': 'render', 'd': 'mindsdb', 'sql': "select count(a), count(b) from t", 'rd': 'postgresql', 'fb': True},
+    {'k': 'render', 'd': 'mindsdb', 'sql': "select a, b from t order by a limit 5 offset 3", 'rd': 'mssql', 'fb': True},
     {'k': 'render', 'd': 'mindsdb', 'sql': "create table files.events (id int, b text)", 'rd': 'postgresql', 'fb': True},
     {'k': 'parse', 'd': 'mindsdb', 'sql': "select a, b from t where a = 1 order by b"},
     {'k': 'parse', 'd': 'mysql', 'sql': "select a, b from t where a = 1 order by b"},
